@@ -291,6 +291,13 @@ func (o *Op) Lines() []string {
 			ls = append(ls, "blob h="+hx(b))
 		}
 		return ls
+	case "resign":
+		// seen by the model as: add a signature object holding the blob, under the given fingerprint
+		if len(o.Blobs) != 1 {
+			return []string{"nop"}
+		}
+		di := sigObjectDI(o.Blobs[0], o.S.Groups[0], 0, 1, o.FP, 0)
+		return append([]string{"add t=det now=0"}, di.Lines()...)
 	case "patch":
 		ls := []string{fmt.Sprintf("patch nsites=%d", len(o.Sites))}
 		for _, p := range o.Sites {
